@@ -1406,6 +1406,7 @@ func (ex *Exec) checkAlloc(n *Term, elem types.Type) {
 	}
 	over := BVCmp("bvslt", i64(ex.allocBound), n)
 	if over.IsConst() {
+		ex.asserts++
 		if over.Bool() {
 			ex.fail("alloc-bound", fmt.Sprintf("allocation of %d elements exceeds bound %d", n.Int64(), ex.allocBound))
 		}
